@@ -32,6 +32,7 @@ type SOp struct {
 	Fail      []string `json:"fail,omitempty"`       // names whose request fails in this poll
 	MidAfter  int      `json:"mid_after,omitempty"`  // after this many requests of the poll (1-based; 0 = none) ...
 	MidName   string   `json:"mid_name,omitempty"`   // ... the service activates a new version of this name
+	MidHandle string   `json:"mid_handle,omitempty"` // ... and/or the program obtains a handle for this name (and reads it)
 	Redeclare []string `json:"redeclare,omitempty"` // restart only: declared set of the new store (nil = same)
 }
 
@@ -335,14 +336,38 @@ func (r *storeRun) run() *h.Violation {
 				r.svc.SetScript(f, []fake.Beh{{Kind: "err"}})
 			}
 			r.svc.ResetCount()
-			if o.MidAfter > 0 && o.MidName != "" {
+			pinnedMid := ""
+			var midViolation *h.Violation
+			if o.MidAfter > 0 && (o.MidName != "" || o.MidHandle != "") {
 				r.svc.OnRequest = func(n int, _ string) {
-					if n == o.MidAfter {
+					if n != o.MidAfter {
+						return
+					}
+					if o.MidName != "" {
 						nv := r.nver[o.MidName] + 1
 						r.nver[o.MidName] = nv
 						r.svc.Set(o.MidName, nv, valueOf(o.MidName, nv))
 						window[o.MidName][nv] = true
 						r.info.Class("change-during-poll")
+					}
+					if m := r.model[o.MidHandle]; m != nil && r.handles[o.MidHandle] == nil {
+						// the program takes a handle while the poll is between its snapshot and its apply step
+						hd := r.st.Secret(o.MidHandle)
+						if hd == nil {
+							midViolation = r.viol("known-after-restart", "step %d: Secret(%q) is nil during a poll although the store knows it", i, o.MidHandle)
+							return
+						}
+						if r.mayExpire(m) {
+							r.info.Class("handle-taken-for-stale-secret-during-poll")
+						}
+						r.handles[o.MidHandle] = hd
+						m.handle = true
+						got := hd.Get()
+						m.last = r.clock.Unix()
+						if !bytes.Equal(got, valueOf(o.MidHandle, m.ver)) {
+							midViolation = r.viol("read-yields-served-value", "step %d: handle of %q taken during a poll yields %q, want version %d", i, o.MidHandle, got, m.ver)
+						}
+						pinnedMid = o.MidHandle
 					}
 				}
 			}
@@ -361,6 +386,24 @@ func (r *storeRun) run() *h.Violation {
 			}
 			err := r.st.Refresh(context.Background())
 			r.svc.OnRequest = nil
+			if midViolation != nil {
+				return midViolation
+			}
+			if pinnedMid != "" {
+				// "a name first pinned by a handle while a poll is already in flight is covered from the next poll on"
+				for v := uint32(1); v <= r.nver[pinnedMid]; v++ {
+					window[pinnedMid][v] = true
+				}
+				// ... but it must survive this poll, and its handle must keep working
+				if v := h.Safely(func() *h.Violation { r.handles[pinnedMid].Get(); return nil }); v != nil {
+					if o := clauseOwner("dropped-only-if-stale-unreferenced-undeclared"); o == r.prop {
+						return h.V("dropped-only-if-stale-unreferenced-undeclared", "step %d: the handle of %q, obtained while the poll was in flight, panics after the poll: %s", i, pinnedMid, v.Detail)
+					}
+					r.foreign = true
+					return nil
+				}
+				r.model[pinnedMid].last = r.clock.Unix()
+			}
 			for _, f := range o.Fail {
 				r.svc.SetScript(f, nil)
 			}
@@ -477,6 +520,10 @@ func genStoreCase(rt *rapid.T, prop string) StoreCase {
 					o.MidAfter = rapid.IntRange(1, 3).Draw(rt, "midafter")
 					o.MidName = rapid.SampledFrom(allStoreNames).Draw(rt, "midname")
 				}
+			}
+			if rapid.IntRange(0, 3).Draw(rt, "withmidhandle") == 0 {
+				o.MidAfter = rapid.IntRange(1, 2).Draw(rt, "midafter-h")
+				o.MidHandle = rapid.SampledFrom([]string{"u1", "u1", "u2", "u3", "d2"}).Draw(rt, "midhandle")
 			}
 		case "restart":
 			if rapid.IntRange(0, 2).Draw(rt, "redeclare") == 0 {
